@@ -239,7 +239,7 @@ def concretise_file(af, cat, rng=None, variant=0):
                     blk['uncompressed_size'] = b['us']['v']
                 else:
                     blk['uncompressed_size_bytes'] = bad_vli(b['us']['v'])
-            blk['header_padding'] = b['hpad'] if b['hpadz'] else (b"\x00" * (b['hpad'] - 1) + b"\x01")
+            blk['header_padding'] = b['hpad'] if (b['hpadz'] or b['hpad'] == 0) else (b"\x00" * (b['hpad'] - 1) + b"\x01")
             hdr = gxz.build_block_header(dict(blk, header_size=None))
             real = len(hdr)
             if b['resv']:
@@ -253,7 +253,7 @@ def concretise_file(af, cat, rng=None, variant=0):
                 h2 = gxz.build_block_header(blk)
                 blk['header_crc32'] = struct.unpack("<I", h2[-4:])[0] ^ (1 << rng.randrange(32))
             padn = (-len(e['data'])) % 4
-            blk['padding'] = bytes(padn) if b['bpadz'] else (bytes(padn - 1) + b"\x80")
+            blk['padding'] = bytes(padn) if (b['bpadz'] or padn == 0) else (bytes(padn - 1) + b"\x80")
             good = gcrc.check_bytes(check, plain)
             if not b['chk'] and good:
                 bad = bytearray(good); bad[rng.randrange(len(bad))] ^= 1 << rng.randrange(8)
@@ -282,7 +282,8 @@ def concretise_file(af, cat, rng=None, variant=0):
         if not s['ipadz']:
             body = 1 + len(gvli.encode(s['icount'])) + sum(len(gvli.encode(r['u'])) + len(gvli.encode(r['n'])) for r in s['irecs'])
             padn = (-body) % 4
-            ix['padding'] = bytes(padn - 1) + b"\x01"
+            if padn:
+                ix['padding'] = bytes(padn - 1) + b"\x01"
         st['index'] = ix
         ft = dict(backward_size=(s['fbs'] // 4 - 1) & 0xFFFFFFFF)
         ffl = bytes([0, s['fcheck']])
